@@ -14,7 +14,12 @@ internals call is a counting ghost that succeeds or fails as the solver chooses.
   h2_attempt_lifecycle : GrevmExecutor::execute_incarnation: every attempt -- successful OR failed -- begins the incarnation, runs the
         handler, FINALIZES the revm journal exactly once, then publishes (finish_incarnation) or discards (discard_incarnation): a
         discarded or retried attempt leaves no loaded account / slot behind in the worker's reused EVM.
-Outside the claim: the adapter closure of to_alloy (Alloy / revm precompile types), gas accounting, call-frame revert semantics,
+  h3_alloy_adapter : the real adapter closure of DynParallelPrecompile::to_alloy (alloy's PrecompileInput reduced to the one field the adapter reads,
+        from_alloy / the implementation / PrecompileOutput::halt as ghosts): a fault recorded by the facade during the call -- database fault
+        (fatal) or static-context refusal (halt) -- IS the call's result whatever the implementation returned (an implementation that swallows
+        or remaps the facade's error cannot hide a database fault from the scheduler); without a fault the implementation's result is forwarded
+        (Ok unchanged, Halt -> halted output with the reservoir, Fatal -> EVM error); the implementation runs exactly once.
+Outside the claim: gas accounting, call-frame revert semantics,
 that executor and sequential replay register the same precompile list (both pass the same field to build_evm: by reading).
 """
 from run import Spec
@@ -218,4 +223,92 @@ def specs(tier):
     return [Spec("h1_facade", build_h1(), cfg=cfg(), unwind=3, timeout=1800,
                  desc="real ParallelPrecompileState facade methods; revm's EvmInternals is a counting ghost", bounds={"methods": 4}),
             Spec("h2_attempt_lifecycle", build_h2(), cfg=exec_cfg(), unwind=3, timeout=1800,
-                 desc="real GrevmExecutor::execute_incarnation call discipline with revm's Evm / handler / IncarnationDb as recording ghosts", bounds={})]
+                 desc="real GrevmExecutor::execute_incarnation call discipline with revm's Evm / handler / IncarnationDb as recording ghosts", bounds={}),
+            Spec("h3_alloy_adapter", build_h3(), cfg=adapter_cfg(), unwind=3, timeout=1800,
+                 desc="real adapter closure of DynParallelPrecompile::to_alloy: implementation = any result, facade fault = none / halt / fatal", bounds={})]
+
+
+# ------------------------------------------------------------------------------------------------ h3: the Alloy adapter closure of to_alloy
+def t_pinput(tr, ty, name, dims, storage, g=None):
+    """alloy PrecompileInput: only `reservoir` is looked at by the adapter itself (the rest is moved into from_alloy)"""
+    from translate import UnitN
+    s = StructN(ty, name, dims, storage, "PrecompileInput")
+    for nm in ("data", "gas"):           # field order of alloy's PrecompileInput: data, gas, reservoir, ... (index 2 is read by the adapter)
+        s.fields.append(UnitN(None, name + "_" + nm, dims, storage)); s.names.append(nm)
+    s.fields.append(ScalarN(None, name + "_reservoir", dims, storage, "u64"))
+    s.names.append("reservoir")
+    return s
+
+
+def adapter_stubs():
+    st = stubs()
+
+    def from_alloy(tr, c):
+        d = c.dest()
+        stn = d.node.f("state")
+        tr.emit(f"{tr.lv(Loc(stn.f('fault').discr, d.idxs))} = 0; {tr.lv(Loc(stn.f('is_static'), d.idxs))} = nondet_bool();")
+        tr._c11_input = d
+
+    def call(tr, c):
+        """the user's implementation: any result; it may have hit a database fault / static refusal through the facade (recorded there)"""
+        inp = tr.deref(c.args[1])
+        fault = inp.node.f("state").f("fault")
+        fe = fault.variants[fault.vindex("Some")][1].fields[0]
+        hi, fi = fe.vindex("Halt"), fe.vindex("Fatal")
+        tr.emit("impl_calls++;")
+        tr.emit(f"if (facade_fault) {{ {tr.lv(Loc(fault.discr, inp.idxs))} = {fault.vindex('Some')}; {tr.lv(Loc(fe.discr, inp.idxs))} = fault_is_halt ? {hi} : {fi}; "
+                f"{tr.lv(Loc(fe.variants[hi][1].fields[0].fields[0], inp.idxs))} = 31; {tr.lv(Loc(fe.variants[fi][1].fields[0].fields[0], inp.idxs))} = 44; }}")
+        d = c.dest()
+        n = d.node
+        oki, erri = n.vindex("Ok"), n.vindex("Err")
+        e = n.variants[erri][1].fields[0]
+        tr.emit(f"if (impl_result == 0) {{ {tr.lv(Loc(n.discr, d.idxs))} = {oki}; {tr.lv(Loc(n.variants[oki][1].fields[0].fields[0], d.idxs))} = 5; }} else {{ "
+                f"{tr.lv(Loc(n.discr, d.idxs))} = {erri}; {tr.lv(Loc(e.discr, d.idxs))} = (impl_result == 1) ? {e.vindex('Halt')} : {e.vindex('Fatal')}; "
+                f"{tr.lv(Loc(e.variants[e.vindex('Halt')][1].fields[0].fields[0], d.idxs))} = 6; {tr.lv(Loc(e.variants[e.vindex('Fatal')][1].fields[0].fields[0], d.idxs))} = 7; }}")
+
+    def halt(tr, c):
+        d = c.dest()
+        r = c.args[0]
+        rl = r.loc if isinstance(r, VLoc) else tr.deref(r)
+        tr.emit(f"halt_reservoir = {tr.as_scalar(c.args[1]).expr}; {tr.lv(Loc(d.node.fields[0], d.idxs))} = 100 + {tr.lv(Loc(rl.node.fields[0], rl.idxs))};")
+    st.update({"ParallelPrecompileInput::from_alloy": from_alloy, "<DynParallelPrecompile as ParallelPrecompile>::call": call, "PrecompileOutput::halt": halt})
+    return st
+
+
+def adapter_cfg():
+    c = cfg()
+    c["stubs"] = adapter_stubs()
+    c["type_overrides"]["PrecompileInput"] = t_pinput
+    c["type_overrides"]["PrecompileOutput"] = t_opaque_id
+    return c
+
+
+def build_h3():
+    def b(tr):
+        H = hz.Harness(tr, "c11_h3")
+        for nm, ct in (("jcalls", "unsigned char"), ("jkind", "unsigned char"), ("jfails", "_Bool"), ("maps", "unsigned char"), ("impl_calls", "unsigned char"),
+                       ("impl_result", "unsigned char"), ("facade_fault", "_Bool"), ("fault_is_halt", "_Bool"), ("halt_reservoir", "u64"), ("rsv", "u64")):
+            H.cvar(nm, ct, shared=False)
+        H.c("jcalls = 0; jkind = 0; maps = 0; jfails = 0; impl_calls = 0; impl_result = nondet_uchar(); __CPROVER_assume(impl_result < 3); "
+            "facade_fault = nondet_bool(); fault_is_halt = nondet_bool(); halt_reservoir = 0; rsv = nondet_usize();")
+        clo = tr.closures.get(next(k for k in tr.closures if tr.closures[k].name.endswith("to_alloy::{closure#0}")))
+        inp = H.local("ainput", "PrecompileInput")
+        H.c(f"{H.lv(inp, 'reservoir')} = rsv;")
+        res = H.local("ares", "Result<PrecompileOutput, PrecompileError>")
+        envn = H.local("aenv", "(DynParallelPrecompile,)")
+        tr.inline(clo, [VRef(envn, []), VLoc(Loc(inp, []))], Loc(res, []))
+        ok, err = H.variant(res, "", "Ok"), H.variant(res, "", "Err")
+        d = H.lv(res, "d")
+        H.assert_("impl_calls == 1", "the implementation is called exactly once")
+        # effective outcome: a fault recorded by the facade overrides WHATEVER the implementation returned
+        H.assert_(f"!(facade_fault && !fault_is_halt) || ({d} == {err} && {H.lv(res, 'Err.0.id')} == 44)",
+                  "a database fault recorded by the facade is the call's result (fatal: aborts the EVM run), whatever the implementation returned")
+        H.assert_(f"!(facade_fault && fault_is_halt) || ({d} == {ok} && {H.lv(res, 'Ok.0.id')} == 100 + 31 && halt_reservoir == rsv)",
+                  "a refusal recorded by the facade (static-context mutation) halts the call with that reason, whatever the implementation returned")
+        H.assert_(f"!(!facade_fault && impl_result == 0) || ({d} == {ok} && {H.lv(res, 'Ok.0.id')} == 5)", "without a recorded fault a success is forwarded unchanged")
+        H.assert_(f"!(!facade_fault && impl_result == 1) || ({d} == {ok} && {H.lv(res, 'Ok.0.id')} == 100 + 6 && halt_reservoir == rsv)", "... a halt becomes a halted output carrying the reservoir")
+        H.assert_(f"!(!facade_fault && impl_result == 2) || ({d} == {err} && {H.lv(res, 'Err.0.id')} == 7)", "... a fatal error is returned as the EVM error")
+        H.cover("facade_fault && !fault_is_halt && impl_result == 1", "database fault remapped to a halt by the implementation")
+        H.cover("!facade_fault && impl_result == 1", "plain halt")
+        return H
+    return b
